@@ -186,9 +186,20 @@ PartialBoards(s, boards, decs, n, last) ==
   ELSE (IF n < last THEN BoardS2C(s, n, boards[n], decs[n].calls, decs[n].cards)
         ELSE PartialBoardS2C(s, n, boards[n], decs[n].calls, decs[n].cards))
        \o PartialBoards(s, boards, decs, n + 1, last)
+\* the board after the last started one is due as well (its header and the
+\* seat's own cards need no decision), provided the last started one is over
+BoardOver(b, d) ==
+  LET fa == FinalAuction(b, d.calls) IN
+  A!Done(fa) /\ (PassedOutC(A!Contract(fa)) \/ Len(d.cards) = 52)
+NextBoardHeader(s, boards, decs, last) ==
+  IF last < Len(boards) /\ (last = 0 \/ BoardOver(boards[last], decs[last]))
+  THEN <<"Start of board", BoardMsg(last + 1, boards[last + 1].dealer, boards[last + 1].vul),
+         CardsMsg(SeatName(s), DealOf(boards[last + 1].deal)[s])>>
+  ELSE <<>>
 PartialServerStream(s, boards, decs, teams) ==
   <<SeatedMsg(s, teams[Side(s) + 1]), TeamsMsg(teams[1], teams[2])>>
     \o PartialBoards(s, boards, decs, 1, LastStarted(decs))
+    \o NextBoardHeader(s, boards, decs, LastStarted(decs))
 
 \* a complete session of four conforming seats
 ServerStream(s, boards, decs, teams) ==
@@ -204,15 +215,17 @@ LogItems(boards, decs, teams, n) ==
 
 (* ------------------------------ admission ------------------------------ *)
 \* requests are processed one at a time in arrival order; the table maps a
-\* seat to the team name seated there ("" = free; team names are non-empty)
+\* seat to the team name seated there, or to Free (the code's None; the empty
+\* string is a team name like any other)
+Free == "<<free seat>>"
 ErrVersion(v) == "ERROR: Protocol version is not 18 but " \o ToString(v) \o "."
 ErrSeated(s) == "ERROR: Player " \o SeatName(s) \o " is already seated."
 ErrTeam(t, pt) == "ERROR: Team name \"" \o t \o "\" is not same as partner's team name \""
                     \o pt \o "\"."
 Verdict(table, rq) ==
   IF rq.version # 18 THEN [ok |-> FALSE, reply |-> ErrVersion(rq.version)]
-  ELSE IF table[rq.seat] # "" THEN [ok |-> FALSE, reply |-> ErrSeated(rq.seat)]
-  ELSE IF table[Partner(rq.seat)] # "" /\ table[Partner(rq.seat)] # rq.team
+  ELSE IF table[rq.seat] # Free THEN [ok |-> FALSE, reply |-> ErrSeated(rq.seat)]
+  ELSE IF table[Partner(rq.seat)] # Free /\ table[Partner(rq.seat)] # rq.team
        THEN [ok |-> FALSE, reply |-> ErrTeam(rq.team, table[Partner(rq.seat)])]
   ELSE [ok |-> TRUE, reply |-> SeatedMsg(rq.seat, rq.team)]
 RECURSIVE TableAfter(_, _, _)
@@ -221,8 +234,8 @@ TableAfter(table, rqs, k) ==
   ELSE LET t == TableAfter(table, rqs, k - 1)
            v == Verdict(t, rqs[k])
        IN IF v.ok THEN [t EXCEPT ![rqs[k].seat] = rqs[k].team] ELSE t
-EmptyTable == [s \in Seats |-> ""]
-TableFull(t) == \A s \in Seats : t[s] # ""
+EmptyTable == [s \in Seats |-> Free]
+TableFull(t) == \A s \in Seats : t[s] # Free
 \* the k-th request's verdict, given the requests before it
 VerdictOf(rqs, k) == Verdict(TableAfter(EmptyTable, rqs, k - 1), rqs[k])
 =============================================================================
